@@ -69,6 +69,8 @@ fn main() {
         }
         "num" => incan_verif_kani::numreplay::main(&args[2..]),
         #[cfg(feature = "compiler")]
+        "typecheck" => incan_verif_kani::tcreplay::main(&args[2..]),
+        #[cfg(feature = "compiler")]
         "plan" => incan_verif_kani::planreplay::main(&args[2..]),
         _ => {
             eprintln!("unknown mode");
